@@ -466,11 +466,11 @@ package flamego
 
 // the middleware: every request gets a renderer of its own, bound to this request's response writer and the normalised options
 //@ func Renderer$2
-//@   props C17 C05
+//@   props C17
 //@   requires c != nil
 //@   modifies *
 //@   panics true
-//@   assert[C17,C05] before MapTo#0: fresh(r) && r.responseWriter == ctxWriter(c)
+//@   assert[C17] before MapTo#0: fresh(r) && r.responseWriter == ctxWriter(c)
 //@   assert[C17] before MapTo#0: r.opts.Charset == opt.Charset && r.opts.JSONIndent == opt.JSONIndent && r.opts.XMLIndent == opt.XMLIndent
 
 // option defaults
